@@ -114,9 +114,30 @@ def hostile_source(rng, n, tag, via_header=None):
         "  implicit none",
         f"  character(len=*), parameter :: cmd = \"$(touch {canaries[0]})\"",
         f"  integer :: v_{tag} = {cond}",
+        # hostile and plain text in every place where Fortran has an expression: constant
+        # initialisers (with kinds, products, powers), bounds, lengths, DATA values
+        f"  integer, parameter :: hk_{tag} = 1024",
+        f"  integer, parameter :: hp_{tag} = 4*hk_{tag}*hk_{tag}*hk_{tag}",
+        f"  integer(kind=8), parameter :: hq_{tag} = 2**40 * 3",
+        f"  integer, parameter :: hr_{tag} = 2*{pay}",
+        f"  integer(4), parameter :: hs_{tag} = ({pay})**2 / 3",
+        f"  real, dimension({pay}) :: ha_{tag}",
+        f"  character(len={pay}) :: hc_{tag}",
+        f"  real(kind={pay}) :: hx_{tag}",
+        f"  integer :: hd_{tag}",
+        f"  data hd_{tag} /{pay}/",
         "contains",
         f"  subroutine s_{tag}()",
+        "    integer :: i",
         f"    print *, v_{tag}, {cond}",
+        f"    if ({pay}) then",
+        f"      call s_{tag}({pay})",
+        "    end if",
+        f"    do i = 1, {pay}",
+        "    end do",
+        f"    select case ({pay})",
+        "    end select",
+        f"    ha_{tag}({pay}) = {pay}",
         "  end subroutine",
         f"end module h_{tag}",
     ]
